@@ -149,7 +149,7 @@ def update_additivity(u, rep, kind, ddtype, tdtype, precision, timeout):
         flows = list(core.NARROW_FLOWS) + d._narrow
         okf = not flows
         rep.obligation('dtype[_update %s: no inexact operation in a float type narrower than the accumulator]' % tag, fn, 'dtype-flow', dict(result='unsat' if okf else 'sat', backend='taint-scan', secs=0))
-        if not okf: rep.violation('dtype[_update %s: no inexact operation in a float type narrower than the accumulator]' % tag, fn, 'arithmetic in float%d flows into a float%d accumulator' % flows[0], dict(kind='update', dist=kind, ddtype=ddtype, tdtype=tdtype, precision=precision, flows=flows[:2]), 'precision taint', None, dict(note='rounding effect: not replayable in exact arithmetic'))
+        if not okf: rep.violation('dtype[_update %s: no inexact operation in a float type narrower than the accumulator]' % tag, fn, 'arithmetic in float%d flows into a float%d accumulator' % flows[0], dict(kind='update', dist=kind, ddtype=ddtype, tdtype=tdtype, precision=precision, flows=flows[:2]), 'precision taint', *native(dict(kind='taint', dist=kind, ddtype=ddtype, tdtype=tdtype, precision=precision)))
         x = lambda i: DCm.real_of(X.at(i, SInt(s))); y = lambda i: DCm.real_of(Y.at(i, SInt(w)))
         bs = DCm.batch_sum
         if kind == 'CPA':
